@@ -140,7 +140,12 @@ func WithVars(vars map[string]any) QueryOption {
 	}
 }
 
-func New(data Map, query string, options ...QueryOption) (*Query, error) {
+func New(data Map, query string, options ...QueryOption) (result *Query, err error) {
+	defer func() {
+		if r := recover(); r != nil {
+			result, err = nil, AsError(r)
+		}
+	}()
 	q := &Query{
 		offsetDefinition:    -1,
 		limitDefinition:     -1,
@@ -1817,7 +1822,7 @@ func ExecOrderBy(query *Query, current []any) ([]any, error) {
 func (query *Query) exec() (result any, err error) {
 	defer func() {
 		if r := recover(); r != nil {
-			err = r.(error)
+			result, err = nil, AsError(r)
 		}
 	}()
 	if query.dual {
@@ -1905,6 +1910,11 @@ func AsError(r any) error {
 }
 
 func (query *Query) execAndPostProcess() (result any, err error) {
+	defer func() {
+		if r := recover(); r != nil {
+			result, err = nil, AsError(r)
+		}
+	}()
 	rs, err := query.exec()
 	if err != nil {
 		return nil, err
